@@ -86,6 +86,13 @@ class PE:
                 return None
             if k == "un" and n.get("op") == "&":
                 return self._addr(strip_casts(n["e"]), rec)
+            if k == "un" and n.get("op") in ("post++", "post--"):
+                return rec(n["e"])                # value before the update; the update is applied after the statement
+            if k == "un" and n.get("op") in ("pre++", "pre--"):
+                es = 1
+                if "t" in n["e"] and u.type(n["e"]["t"])["k"] == "ptr":
+                    es = u.elem_size(n["e"]["t"]) or 1
+                return rec(n["e"]) + (es if n["op"] == "pre++" else -es)
             if k == "bin" and n["op"] in ("+", "-") and "t" in n["x"] and "t" in n["y"]:
                 tx, ty = u.type(n["x"]["t"]), u.type(n["y"]["t"])
                 px, py = tx["k"] in ("ptr", "arr"), ty["k"] in ("ptr", "arr")
@@ -204,6 +211,8 @@ class PE:
             return True
         if k == "call" and e.get("fn") in self.call_default:
             return True
+        if k == "mem" and "t" in e and self.u.type(e["t"])["k"] == "arr":
+            return self.depends(e["b"], bind)          # an array member used as a pointer: an address, not a read
         if (k == "mem" and e.get("arrow")) or k == "sub" or (k == "un" and e.get("op") == "*"):
             if self.memory and k != "mem":
                 return any(self.depends(c, bind) for c in core.children(e))
@@ -290,6 +299,25 @@ class PE:
             res.append((nb, True if v is None else sure))
         return res
 
+    def _apply_nested_incs(self, e, b):
+        """++/-- that occur inside a larger expression (the root-level ones are handled by the statement itself)"""
+        nb = b
+        for x, ps in walk(e):
+            if x is e or not ps:
+                continue
+            if x.get("k") == "un" and x.get("op") in ("post++", "post--", "pre++", "pre--"):
+                lk = key(strip_casts(x["e"]))
+                if lk in nb:
+                    nb = dict(nb) if nb is b else nb
+                    if isinstance(nb[lk], int):
+                        es = 1
+                        if "t" in x["e"] and self.u.type(x["e"]["t"])["k"] == "ptr":
+                            es = self.u.elem_size(x["e"]["t"]) or 1
+                        nb[lk] = nb[lk] + (es if "++" in x["op"] else -es)
+                    else:
+                        nb[lk] = UNSURE
+        return nb
+
     def _addr_taken(self, e, b):
         """variables whose address is passed on lose their value, unless the callee's stored value is tabled"""
         nb = b
@@ -372,7 +400,7 @@ class PE:
                     nxt.extend(cur)
                 else:
                     nxt.append((self._addr_taken(e, b), s))
-            states = nxt[:16]
+            states = [(self._apply_nested_incs(e, b), s) for b, s in nxt[:16]]
         return [(b, s, False) for b, s in states]
 
     def branch(self, fn, bid, bind, sure, depth):
